@@ -19,7 +19,7 @@ def chrom_starts(chrgrp):
 
 
 def make_xoprob(g, chrgrp, mode):
-    """Crossover-probability vectors: 'zero', 'half', 'mixed' (exact 0 and 0.5 entries), 'random', 'haldane'."""
+    """Crossover-probability vectors: 'zero', 'half', 'mixed' (exact 0 and 0.5 entries), 'random', 'haldane', 'wide' ([0,1] incl. exact 1)."""
     m = len(chrgrp)
     st = chrom_starts(chrgrp)
     if mode == "zero":
@@ -33,6 +33,10 @@ def make_xoprob(g, chrgrp, mode):
     elif mode == "haldane":
         d = g.exponential(0.15, m)
         xo = 0.5 * (1 - numpy.exp(-2 * d))
+    elif mode == "wide":      # user-supplied probabilities over the whole of [0, 1], incl. obligatory crossovers (exactly 1.0)
+        xo = g.uniform(0, 1.0, m)
+        xo[g.random(m) < 0.15] = 1.0
+        xo[g.random(m) < 0.15] = 0.0
     else:
         xo = g.uniform(0, 0.5, m)
     if mode not in ("zero",):
